@@ -1,0 +1,25 @@
+//go:build verif
+
+package regions
+
+// Property-level theorems for /verif/govc, written as client programs of the
+// contracted functions. Never called; verified modularly (each call is
+// replaced by the callee's contract).
+
+//@ theorem C16.index
+//@   props C16
+//@   requires len(starts) == len(ends)
+//@   requires gN() == len(starts) && gStarts() == arr(starts) && gEnds() == arr(ends)
+// For all interval lists and every position i, NewIndex(starts, ends).At(i)
+// is exactly the ascending list of the x with starts[x] <= i < ends[x]. The
+// second requires clause only names the ghost interval lists of At's contract
+// (gN, gStarts, gEnds are otherwise unconstrained constants): NewIndex
+// establishes At's representation invariant for the lists it was given.
+func thmIndex(starts, ends []int, i int) {
+	idx := NewIndex(starts, ends)
+	r := idx.At(i)
+	//@ assert forall m int :: 0 <= m && m < len(r) ==> 0 <= r[m] && r[m] < len(starts) && starts[r[m]] <= i && i < ends[r[m]]
+	//@ assert forall x int :: 0 <= x && x < len(starts) && starts[x] <= i && i < ends[x] ==> covers(arr(starts), arr(ends), len(starts), x, i) && exists m int :: 0 <= m && m < len(r) && r[m] == x
+	//@ assert forall a int, b int :: 0 <= a && a < b && b < len(r) ==> r[a] < r[b]
+	_ = r
+}
